@@ -9,7 +9,7 @@ def run(ctx):
     RR.scores_iter_in_order(ctx, "R07.a")
     RR.insertion_position_unread(ctx, "R07.b")
     RR.hit_from_record(ctx, "R07.b")
-    RR.priorities(ctx, "R07.c")
+    RR.priorities(ctx, "R07.c", match_before_rating=False)
     RR.rating_confinement(ctx, "R07.c")
     RT.candidate_cap(ctx, "R06.b", minimum=10)
     RR.bounded_selection(ctx, "R06.a")
